@@ -301,3 +301,35 @@ Example pinned_three_neighbours :
   map (fun c => pinned_sig_equal [31; 34; c; b64pad] [31; 34; 16; b64pad]) [16; 17; 18; 19; 20] = [true; true; true; true; false] /\
   map (fun c => text_equal [31; 34; c; b64pad] [31; 34; 16; b64pad]) [16; 17; 18; 19; 20] = [true; false; false; false; false].
 Proof. vm_compute. split; reflexivity. Qed.
+
+(* ---- seeded/C18-10: "don't answer CORS preflight requests with 401 on jwt routes" -------------
+   Authorize lets a request that LOOKS like a CORS preflight (method OPTIONS, non-empty Origin and
+   Access-Control-Request-Method headers) straight through to the next handler, before the token
+   is parsed.  OPTIONS is an ordinary route method when the server has no CORS router in front, so
+   a protected OPTIONS route runs without any credential.  The variant looks at the two inputs the
+   real gate ignores (Props.gate_independent_of_method_and_headers). *)
+Definition pinned_is_preflight (q : hreq) : bool :=
+  (hq_method q =? m_options) && has_header h_origin q && has_header h_acrm q.
+
+Definition pinned_preflight_authorize (mac : alg -> Z -> Z -> Z) (h : history) (c : jcfg) (q : hreq) : history * jresult :=
+  if pinned_is_preflight q then (h, mkJres true 200 []) else authorize_req mac h c q.
+
+(* for every mac, secret configuration and counter state: a request with NO token at all runs the handler,
+   while the modelled gate answers it 401; and with another method, or without one of the two headers,
+   the variant is the gate *)
+Theorem pinned_preflight_bypass_refuted : forall mac h c now,
+  let q := mkHreq m_options [(h_origin, 7); (h_acrm, 8)] now CMissing in
+  jran (snd (pinned_preflight_authorize mac h c q)) = true /\
+  snd (authorize_req mac h c q) = unauthorized.
+Proof. intros mac h c now. cbn. split; reflexivity. Qed.
+
+Lemma pinned_preflight_elsewhere_is_the_gate : forall mac h c q,
+  hq_method q <> m_options \/ has_header h_origin q = false \/ has_header h_acrm q = false ->
+  pinned_preflight_authorize mac h c q = authorize_req mac h c q.
+Proof.
+  intros mac h c q H. unfold pinned_preflight_authorize, pinned_is_preflight.
+  destruct H as [H|[H|H]].
+  - apply Z.eqb_neq in H. rewrite H. reflexivity.
+  - rewrite H, andb_false_r. reflexivity.
+  - rewrite H, andb_false_r. reflexivity.
+Qed.
